@@ -191,6 +191,11 @@ class OperatorNode(ASTNode):
             return op(self.right.eval(context))
 
         elif self.ttype == 'operator-infix':
+            if self.tsubtype == 'percent':
+                # "x%" is parsed as "x * 0.01", but a hundredth is x / 100:
+                # 57 * 0.01 is 0.5700000000000001, and "=57 %" must give
+                # what "=57%" gives.
+                return INFIX_OP_TO_FUNC['/'](self.left.eval(context), 100)
             op = INFIX_OP_TO_FUNC[self.tvalue]
             return op(
                 self.left.eval(context),
